@@ -71,7 +71,8 @@ TYPES = [("i32", "i32"), ("String", "alloc::string::String"), ("Vec<u8>", "alloc
          ("[u8; 4]", "[u8; 4]"), ("()", "()")]
 
 IDENTS = ["alpha", "beta", "gamma", "delta", "eps", "zeta", "eta", "theta", "iota", "kappa", "lam", "mu", "nu", "xi", "omi", "pi", "rho", "sigma", "tau", "ups",
-          "b1", "b2", "b10", "b02", "x9", "x10", "x100", "r#match", "r#type", "r#loop", "Upper", "mixedCase", "with_under", "n0", "n00", "zz9"]
+          "b1", "b2", "b10", "b02", "x9", "x10", "x100", "r#match", "r#type", "r#loop", "Upper", "mixedCase", "with_under", "n0", "n00", "zz9",
+          "f1", "f2", "f3", "f4", "f5", "f6", "f7", "f8", "f9", "f10", "f11", "f12", "g1", "g2", "g3", "g4", "g5", "g6", "g7", "g8"]
 
 
 class Item:
@@ -198,17 +199,24 @@ def gen_program(rng, crate, index, size):
                 return n
         raise RuntimeError("idents exhausted")
 
-    def add_bench(modpath, indent, nested_ok=True):
+    def add_bench(modpath, indent, nested_ok=True, force_kind=None, force_form=None):
         bid = next_id[0]
         next_id[0] += 1
         ident = pick_ident(tuple(modpath))
         pretty = ident.replace("r#", "")
-        kind = rng.choice(["plain", "plain", "bencher", "args", "args", "args", "types", "consts", "consts_ext", "both", "types_args"])
+        kind = force_kind or rng.choice(["plain", "plain", "bencher", "args", "args", "args", "types", "consts", "consts_ext", "both", "types_args"])
         opts_parts, exp_opts, ignore_attr = gen_options(rng, "bench", kind == "plain")
         display = pretty
+        shown = used_names.setdefault(("display",) + tuple(modpath), set())
         if rng.random() < 0.3:
             display = rng.choice(["custom name", "my-bench", "x10", "x9", "Ünï", "a.b", "name with spaces"]) + ("" if rng.random() < 0.5 else str(bid))
+            if display in shown:
+                display += "_%d" % bid      # sibling display names stay unique (paths must identify cases)
             opts_parts.insert(rng.randrange(len(opts_parts) + 1), "name = %s" % rust_str(display))
+        elif display in shown:
+            display = "%s_%d" % (pretty, bid)
+            opts_parts.insert(rng.randrange(len(opts_parts) + 1), "name = %s" % rust_str(display))
+        shown.add(display)
         pad = "    " * indent
         b = TG.Bench(bid, list(modpath), ident, display, P.file, 0, len(pad) + 1, None, {"cost": 10, "mode": 0}, "plain")
         extra_attr = ""
@@ -221,7 +229,7 @@ def gen_program(rng, crate, index, size):
             fn_args = "bencher: divan::Bencher"
             body_stmt = 'crate::vrun(%d, "", "", ""); bencher.bench(|| ());' % bid
         elif kind == "args":
-            form = rng.randrange(8)
+            form = rng.randrange(8) if force_form is None else force_form
             n = rng.choice([1, 2, 3, 5, 9, 30]) if form in (0, 2) else 3
             with_bencher = rng.random() < 0.5
             if form == 0:
@@ -260,7 +268,8 @@ def gen_program(rng, crate, index, size):
                 consts = rng.sample([1, 2, 4, 8, 16, 32, 100, 7], rng.randrange(1, 5))
                 const_expr = "[%s]" % ", ".join(map(str, consts))
             elif kind == "consts_ext":
-                const_expr, consts = rng.choice([("crate::SIZES_A", [1, 2, 4, 8, 16]), ("crate::SIZES_20", list(range(20, 0, -1))), ("crate::SIZES_1", [3])])
+                ext_consts = [("crate::SIZES_A", [1, 2, 4, 8, 16]), ("crate::SIZES_20", list(range(20, 0, -1))), ("crate::SIZES_1", [3])]
+                const_expr, consts = rng.choice(ext_consts) if force_form is None else ext_consts[force_form]
             elif kind == "both":
                 consts = rng.sample([1, 2, 3, 10, 20], rng.randrange(1, 4))
                 const_expr = "[%s]" % ", ".join(map(str, consts))
@@ -343,9 +352,13 @@ def gen_program(rng, crate, index, size):
         if grouped:
             parts, exp_opts, ignore_attr = gen_options(rng, "group", False)
             display = pretty
-            if rng.random() < 0.4:
+            shown = used_names.setdefault(("display",) + tuple(modpath), set())
+            if rng.random() < 0.4 or display in shown:
                 display = rng.choice(["Group", "grp-x", "G 1", "ω"]) + str(rng.randrange(100))
+                while display in shown:
+                    display += "x"
                 parts.insert(0, "name = %s" % rust_str(display))
+            shown.add(display)
             attr = "#[divan::bench_group(%s)]" % ", ".join(parts) if parts else "#[divan::bench_group]"
             ln = line_no()
             body.append("%s%s" % (pad, attr))
@@ -354,6 +367,8 @@ def gen_program(rng, crate, index, size):
             g = TG.Group(list(modpath), name, display, P.file, ln, len(pad) + 1, opts_to_spec(exp_opts) if (exp_opts or ignore_attr) else None)
             P.spec.items.append(g)
             P.dump_expect.append(("G", display, name, "::".join(modpath), ln, len(pad) + 1, exp_opts if (exp_opts or ignore_attr) else None, "group"))
+        if not grouped:
+            used_names.setdefault(("display",) + tuple(modpath), set()).add(pretty)
         body.append("%smod %s {" % (pad, name))
         body.append("%s    use std::time::Duration;" % pad)
         sub = modpath + [name]
@@ -370,6 +385,18 @@ def gen_program(rng, crate, index, size):
             add_module([crate], 0, 1)
         else:
             add_bench([crate], 0)
+    if index == 0:
+        # the first program of every crate also carries one item of every attribute form, so that no form depends on luck
+        body.append("mod all_forms {")
+        body.append("    use std::time::Duration;")
+        sub = [crate, "all_forms"]
+        for form in range(8):
+            add_bench(sub, 1, nested_ok=False, force_kind="args", force_form=form)
+        for form in range(3):
+            add_bench(sub, 1, nested_ok=False, force_kind="consts_ext", force_form=form)
+        for k in ("plain", "bencher", "types", "consts", "both", "both", "types_args"):
+            add_bench(sub, 1, nested_ok=(k in ("plain", "bencher")), force_kind=k)
+        body.append("}")
     P.source = PRELUDE + "\n".join(body) + "\n"
     for i, it in enumerate(P.spec.items):
         if isinstance(it, TG.Bench):
